@@ -30,7 +30,7 @@ def main(quick: bool = False, pids=None) -> int:
     import importlib.util
 
     pids = pids or discover()
-    n = 6 if quick else 200
+    n = 6 if quick else int(os.environ.get("RSIM_SELFTEST_N", "200"))
     seeds = [1] if quick else [1, 2, 3]
     bad = 0
     for pid in pids:
